@@ -85,7 +85,8 @@ type vfC17Rig struct {
 	hsConns    []*vfMemConn
 	hsFail     map[int]bool
 	dead       map[int]bool
-	killedPre  map[int]bool // killed while not (yet) in the pool
+	killedPre  map[int]bool             // killed while not (yet) in the pool
+	fillRet    map[string]chan struct{} // trigger -> closed when its fill() call has returned
 	nextFree   int
 	failMode   int
 	closeErr   int32 // != 0: the sockets' Close() reports an error
@@ -403,11 +404,13 @@ func (r *vfC17Rig) exec(st vfC17Step) error {
 	r.touch()
 	switch st.Cmd {
 	case "fill":
+		done := make(chan struct{})
 		r.mu.Lock()
 		r.pendName = st.F
+		r.fillRet[st.F] = done
 		r.mu.Unlock()
 		r.calls.Add(1)
-		go func() { defer r.calls.Done(); r.pool.fill() }()
+		go func() { defer r.calls.Done(); defer close(done); r.pool.fill() }()
 	case "recheck":
 		w := r.take("fill", func(w *vfC17Waiter) bool { return w.name == st.F })
 		if w == nil {
@@ -593,7 +596,7 @@ func vfC17NewRig(sess *Session, d *vfC17Dialer, cl *vfCluster, n, size int) *vfC
 	k := int(atomic.AddInt32(&vfC17HostSeq, 1))
 	ip := fmt.Sprintf("10.%d.%d.%d", 1+k/60000, (k/250)%240, 1+k%250)
 	desc := vfHostDesc{ID: fmt.Sprintf("00000000-0000-0000-0001-%012d", k), Addr: ip, DC: "dc1", Rack: "r1", Tokens: []string{"1"}}
-	r := &vfC17Rig{n: n, size: size, sess: sess, ip: ip, conns: map[int]*vfC17RConn{}, hsFail: map[int]bool{}, dead: map[int]bool{}, killedPre: map[int]bool{}}
+	r := &vfC17Rig{n: n, size: size, sess: sess, ip: ip, conns: map[int]*vfC17RConn{}, hsFail: map[int]bool{}, dead: map[int]bool{}, killedPre: map[int]bool{}, fillRet: map[string]chan struct{}{}}
 	r.node = vfNewNode(cl, desc)
 	r.node.Handler = func(nc *vfNodeConn, f *vfFrame, q *vfRequest) bool {
 		if f.Op == vfOpStartup {
@@ -640,6 +643,29 @@ func vfC17RunSchedule(sess *Session, d *vfC17Dialer, cl *vfCluster, sch *vfC17Sc
 		if !ok {
 			divergence = fmt.Sprintf("step %d (%s %s%d): real %s, model %s", k+1, st.Cmd, st.F, st.C, got, st.Exp)
 			break
+		}
+		if st.Cmd == "fill" {
+			// a trigger the model sends away at the first check leaves no trace in the projection: its fill() call must
+			// have returned before the next step is taken (a goroutine scheduled late would look at a later state)
+			parked := false
+			for _, g := range st.Exp.Gate {
+				if g == st.F {
+					parked = true
+				}
+			}
+			r.mu.Lock()
+			ch := r.fillRet[st.F]
+			r.mu.Unlock()
+			if !parked && ch != nil {
+				select {
+				case <-ch:
+				case <-time.After(vfC17DeadlineD()):
+					divergence = fmt.Sprintf("step %d (fill %s): fill() did not return; real %s, model %s", k+1, st.F, r.proj(), st.Exp)
+				}
+				if divergence != "" {
+					break
+				}
+			}
 		}
 		if st.Cmd == "dial_fail" && st.Exp.Filling && (st.Exp.NDial > 0 || len(st.Exp.Connected) > 0) {
 			// a connect() of the round failed while siblings are still in flight: connectMany is a join, the pool must
